@@ -293,6 +293,60 @@ fn eval(a: &[String]) -> String {
       }
       out
     }
+    "day_view_scan" => {
+      // native confirmation for 08.d: on every day of some years the sexagenary-day view's year pillar is (y - 4) mod 60 counted from the
+      // Lichun day, and its month pillar is the Yin month pillar advanced once per Jie day passed
+      let dn = |d: &SolarDay| (d.get_julian_day().get_day() + 0.5) as i64;
+      let mut out = "NONE".to_string();
+      if v.len() > 0 && v[0] == 1 {
+        // instant view: day pillar rolls at 23:00, hour pillar by Five Rats on the rolled day pillar
+        let mut day = SolarDay::from_ymd(2024, 1, 1);
+        'inst: for _ in 0..130 {
+          let dp = (dn(&day) + 49).rem_euclid(60);
+          for h in [0usize, 1, 11, 12, 22, 23] {
+            let t = SolarTime::from_ymd_hms(day.get_year(), day.get_month(), day.get_day(), h, 30, 0).get_sixty_cycle_hour();
+            let rolled = if h >= 23 { (dp + 1) % 60 } else { dp };
+            let hb = ((h as i64 + 1) / 2) % 12;
+            let exp_stem = (2 * ((rolled % 10) % 5) + hb) % 10;
+            let hp = t.get_sixty_cycle();
+            if t.get_day().get_index() as i64 != rolled || hp.get_earth_branch().get_index() as i64 != hb || hp.get_heaven_stem().get_index() as i64 != exp_stem {
+              out = format!("{}-{}-{} {}:30 day pillar {} (expected {}), hour pillar {} (expected stem {} branch {})", day.get_year(), day.get_month(), day.get_day(), h,
+                            t.get_day().get_index(), rolled, hp.get_index(), exp_stem, hb);
+              break 'inst;
+            }
+          }
+          day = day.next(1);
+        }
+        return out;
+      }
+      'scan: for y in [1900isize, 1990, 2000, 2015, 2021, 2023, 2024, 2026, 2100, 3000] {
+        let lichun = dn(&SolarTerm::from_index(y, 3).get_julian_day().get_solar_day());
+        let jie: Vec<i64> = (0..13).map(|k| dn(&SolarTerm::from_index(y, 3 + 2 * k).get_julian_day().get_solar_day())).collect();
+        let prev_jie: Vec<i64> = (0..2).map(|k| dn(&SolarTerm::from_index(y, -1 + 2 * k).get_julian_day().get_solar_day())).collect(); // 大雪(y-1) = index -1, 小寒 = index 1
+        let mut day = SolarDay::from_ymd(y, 1, 1);
+        for _ in 0..SolarYear::from_year(y).get_day_count() {
+          let o = dn(&day);
+          let sc = day.get_sixty_cycle_day();
+          let py = if o >= lichun { y } else { y - 1 };
+          let exp_year = (py - 4).rem_euclid(60) as usize;
+          // months since the Yin month of civil year y (negative before Lichun)
+          let mut q: i64 = -2;
+          if o >= prev_jie[1] { q = -1; }
+          for (k, j) in jie.iter().enumerate() { if o >= *j { q = k as i64; } }
+          let first = (((y - 4).rem_euclid(10) % 5) * 2 + 2) as i64; // stem of the Yin month
+          let exp_stem = (first + q).rem_euclid(10) as usize;
+          let exp_branch = (2 + q).rem_euclid(12) as usize;
+          let got_m = sc.get_month();
+          if sc.get_year().get_index() != exp_year || got_m.get_heaven_stem().get_index() != exp_stem || got_m.get_earth_branch().get_index() != exp_branch {
+            out = format!("{}-{}-{}: year pillar {} (expected {}), month pillar {} (expected stem {} branch {})", day.get_year(), day.get_month(), day.get_day(),
+                          sc.get_year().get_index(), exp_year, got_m.get_index(), exp_stem, exp_branch);
+            break 'scan;
+          }
+          day = day.next(1);
+        }
+      }
+      out
+    }
     "six_star" => {
       // month number, leap flag, day -> six star index on a real lunar day with these
       use tyme4rs::tyme::lunar::{LunarDay, LunarYear};
